@@ -24,7 +24,8 @@ def run(ctx):
             cfgk["base_extra"] = dict(cfgk.get("base_extra") or {}, init_positions="%s:%d" % (f0["id"], r2.choice([2, 3, -2])))
         tstream.fresh_process_run(ctx, S, cfgk, seed, ["c02_monitor"], "futures account starting from configured positions %s" % cfgk["base_extra"]["init_positions"])
     tstream.stream(ctx, ctx.n(50, 2500), corrs, [monitors.c02_monitor, monitors.marked_at_bar_monitor("C02.1", "FUTURE"), monitors.positions_view_monitor("C02.5", "FUTURE")], acct_types=("FUTURE",),
-                   market_opts=lambda k: {"with_future": True, "n_stocks": 0 if k % 2 else None, "opts": {"p_expire": 0.6}}, cfg_opts=lambda k: {"p_init_pos": 0.25, "pf_roundtrip": k % 3 == 2})
+                   market_opts=lambda k: {"with_future": True, "n_stocks": 0 if k % 2 else None, "opts": {"p_expire": 0.6, "crash": k % 8 == 5}},
+                   cfg_opts=lambda k: {"p_init_pos": 0.25, "pf_roundtrip": k % 3 == 2, "wipeout": k % 8 == 5})
 
 
 def replay(ctx, data):
